@@ -1986,6 +1986,21 @@ package go9p
 //@     invariant newfid != nil && fid != nil && clnt != nil && nwalk >= 0
 //@     invariant forall k int :: 0 <= k && k < len(wnames) ==> len(wnames[k]) <= 65535
 
+// C15 (client side): Readdir(0) goes on reading until a read returns no data, so it returns every entry the
+// server lists (it may stop early only on an error or on a record that does not decode)
+//@ func (*File).Readdir(file, num) (dirs, err)
+//@   property C15
+//@   requires file != nil && file.Fid != nil && file.Fid.Clnt != nil
+//@   ghost lastn int = -1
+//@   ghost undecodable bool = false
+//@   at call((*File).Read) after lastn := ret0
+//@   at call(UnpackDir) after undecodable := ret3 != nil
+//@   ensures  [C15 complete] num == 0 && err == nil ==> lastn == 0 || undecodable
+//@   loop 1
+//@     invariant file != nil && file.Fid != nil && file.Fid.Clnt != nil && 0 <= pos && pos <= len(dirs) && len(dirs) >= 32 && len(buf) <= 4294967295
+//@   loop 2
+//@     invariant file != nil && file.Fid != nil && file.Fid.Clnt != nil && 0 <= pos && pos <= len(dirs) && len(dirs) >= 32 && len(buf) <= 4294967295
+
 // C14: the i/o unit a file is opened with is positive and fits a message (File.Read/Write chunk by it)
 //@ func (*Clnt).Open(clnt, fid, mode) (err)
 //@   property C14
